@@ -262,6 +262,25 @@ func ruleR03c(h *H) {
 			}
 			h.Verdict(good, rule, name, h.pos(w.Instr), "offset of the entry whose WAL append succeeded", why)
 		default:
+			// the result of an extracted helper: every value it hands out on success must be
+			// the result of a successful DB.ReadCommitOffset / Wal.LastOffset inside the helper
+			if call, res := helperSuccessResults(v); call != nil && len(res) > 0 {
+				ok, why, _ := ir.SuccessDominated(call, w.Instr)
+				for _, r := range res {
+					rv := ir.Canon(r.V)
+					switch {
+					case isCallResultOf(h, rv, walLastOffset):
+					case isExtractOf(h, rv, dbReadCommit), isExtractOf(h, rv, walTruncate):
+						if sd, w2, _ := ir.SuccessDominated(rv.(*ssa.Extract).Tuple.(*ssa.Call), r.Ret); !sd {
+							ok, why = false, "inside "+describeCallee(call.Common())+": "+w2
+						}
+					default:
+						ok, why = false, "inside "+describeCallee(call.Common())+" the value "+ir.Describe(r.V)+" is not one of the allowed sources"
+					}
+				}
+				h.Verdict(ok, rule, name, h.pos(w.Instr), "from the successful result of "+describeCallee(call.Common())+", which hands out an allowed source", why)
+				continue
+			}
 			h.Bad(rule, name, h.pos(w.Instr), "value "+ir.Describe(w.Val)+" is not one of the allowed sources")
 		}
 	}
